@@ -141,6 +141,9 @@ def gen_config(r: random.Random, profile: str = "valid") -> Dict[str, Any]:
                                r.choice(["marketPrice", "fundamentalPrice"]): float(r.choice([100, 300, 1000])),
                                "fundamentalDrift": r.choice([0.0, 0.001]), "fundamentalVolatility": r.choice([0.0, 0.01]),
                                "outstandingShares": r.choice([100, 2000])}
+        for k_ in ("fundamentalDrift", "fundamentalVolatility"):
+            if eff[k_] == 0.0 and r.random() < 0.6:
+                del eff[k_]  # the documented default applies
         mode = r.choice(["one", "count", "count", "range", "range"])
         if mode == "count":
             eff["numMarkets"] = r.choice([1, 2, 3, 5]) if r.random() < 0.97 else r.choice([17, 40, 70])
